@@ -17,6 +17,7 @@ import (
 
 	cs "github.com/lianxiangcloud/linkchain/consensus"
 	"github.com/lianxiangcloud/linkchain/libs/crypto"
+	"github.com/lianxiangcloud/linkchain/libs/ser"
 	"github.com/lianxiangcloud/linkchain/types"
 )
 
@@ -157,5 +158,75 @@ func TestReproRotationSplitsRecord(t *testing.T) {
 		if ignore && found {
 			t.Skip("not reproduced: marker found")
 		}
+	}
+}
+
+// The consensus reactor accepts peer messages of up to RecvMessageCapacity
+// (1 MB) bytes and the receive routine writes them to the WAL before looking at
+// them. The WAL record adds the peer id, a time stamp and list headers, so a
+// block part message within ~70 bytes of the reactor's limit becomes a record
+// whose length field is above the decoder's own limit of 1 MB: the encoder
+// writes it without complaint, the decoder refuses it ("length N exceeded
+// maximum possible value"), and nothing after it can be replayed or searched.
+func TestReproLargestPeerMessageIsWrittenButNotReadable(t *testing.T) {
+	capacity := (&cs.ConsensusReactor{}).GetChannels()[1].RecvMessageCapacity // data channel
+	for _, ch := range (&cs.ConsensusReactor{}).GetChannels() {
+		if ch.ID == cs.DataChannel {
+			capacity = ch.RecvMessageCapacity
+		}
+	}
+	// the largest block part message a peer can deliver
+	n := capacity
+	var msg *cs.BlockPartMessage
+	for {
+		msg = &cs.BlockPartMessage{Height: 2, Part: &types.Part{Index: 0, Bytes: bytes.Repeat([]byte{0xab}, n)}}
+		if sz := len(ser.MustEncodeToBytesWithType(msg)); sz <= capacity {
+			t.Logf("peer message: part of %d bytes, %d bytes on the wire (reactor limit %d)", n, sz, capacity)
+			break
+		}
+		n--
+	}
+	dir := t.TempDir()
+	path := filepath.Join(dir, "wal")
+	wal, err := cs.NewWAL(path)
+	if err != nil {
+		t.Fatal(err)
+	}
+	if err := wal.Start(); err != nil {
+		t.Fatal(err)
+	}
+	wal.WriteSync(cs.EndHeightMessage{Height: 1})
+	wal.Write(cs.VerifPackMsg(msg, "0123456789abcdef0123456789abcdef01234567")) // as receiveRoutine does for a peer message
+	wal.WriteSync(reproVote(2))
+	wal.WriteSync(cs.EndHeightMessage{Height: 2})
+	wal.Stop()
+	wal.Group().Head.Close()
+
+	w2, err := cs.NewWAL(path)
+	if err != nil {
+		t.Fatal(err)
+	}
+	defer w2.Group().Head.Close()
+	gr, _ := w2.Group().NewReader(0)
+	dec := cs.NewWALDecoder(gr)
+	cnt := 0
+	var last error
+	for {
+		_, err := dec.Decode()
+		if err != nil {
+			last = err
+			break
+		}
+		cnt++
+	}
+	gr.Close()
+	t.Logf("replay of the undamaged log: %d of 5 records, then %v", cnt, last)
+	g2, found, err := w2.SearchForEndHeight(2, &cs.WALSearchOptions{IgnoreDataCorruptionErrors: true})
+	if g2 != nil {
+		g2.Close()
+	}
+	t.Logf("SearchForEndHeight(2, ignore=true): found=%v err=%v (expected found=true)", found, err)
+	if cnt == 5 && last == io.EOF && found {
+		t.Skip("not reproduced")
 	}
 }
